@@ -230,9 +230,7 @@ def load_one(lit: LineIterator, norm_threshold: float = 1e-4) -> dict:
 
     nelec = atnums.sum() - charge
     if coeffsb is None:
-        # restricted closed-shell
-        if nelec % 2 != 0:
-            raise LoadError("Odd number of electrons found in restricted case.", lit)
+        # restricted closed-shell or open-shell
         if abs(occsa.sum() - nelec) > 1e-7:
             raise LoadError("Occupation numbers are inconsistent with number of electrons", lit)
         mo = MolecularOrbitals(
